@@ -133,7 +133,7 @@ EXTRA = [
     "int | float", "TD", "TD2", "TDopt", "NT", "BoundG[B]", "BoundG[A]", "WithCall", "Type[Color]",
     "Type[NT]", "Mapping[str, A]", "Mapping[str, B]", "Iterable[A]", "Iterable[B]",
     "Tuple[A, Unpack[Tuple[B, ...]]]", "Tuple[Unpack[Tuple[A, ...]], B]", "Tuple[A, Unpack[Tuple[A, ...]], B]",
-    "Tuple[bool, int]", "Tuple[int, int]", "Co[float]", "Co[bool]", "Inv[int]", "Inv[float]", "Cn[float]",
+    "Tuple[bool, int]", "Tuple[int, int]", "Co[float]", "Co[bool]", "Inv[int]", "Inv[float]", "Cn[float]", "Cn[int]",
     "Callable[[float], int]", "Callable[[int], float]", "Callable[[P], A]", "Tuple[P, PI]", "Co[P]", "Co[PI]",
     "NT | None", "Tuple[NT, A]", "Callable[[], NT]", "TD | TD2", "Type[PI]", "Sequence[float]", "Tuple[float, ...]", "Co[NT]", "Cn[NT]",
 ]
